@@ -350,6 +350,10 @@ func GRPCResultGen(d *m.Design, meth *m.Method) *rapid.Generator[value.V] {
 	return grpcValueGen(d, meth.Result, md)
 }
 
+// GRPCValueGen draws a valid value of an attribute carried in a gRPC message
+// (streamed payloads and results).
+func GRPCValueGen(d *m.Design, a *m.Attr) *rapid.Generator[value.V] { return grpcValueGen(d, a, nil) }
+
 func grpcValueGen(d *m.Design, a *m.Attr, metadata []m.Mapping) *rapid.Generator[value.V] {
 	return rapid.Custom(func(t *rapid.T) value.V {
 		_ = rapid.Bool().Draw(t, "pad")
